@@ -139,10 +139,15 @@ def repo_ignore_shape():
     m2 = _shape_re(IGN, None, "_extract_ignore_patterns",
                    r"if not config or not isinstance\(config, dict\):\n    return \[\]\nignore_patterns = config\.get\(('[^']*'), \[\]\)\n"
                    r"if isinstance\(ignore_patterns, list\):\n    return \[str\(pattern\) for pattern in ignore_patterns\]\nreturn \[\]")
-    _shape(IGN, None, "get_ignore_parser", {
+    cwd_default = _shape(IGN, None, "get_ignore_parser", {
         "global _CACHED_PARSER, _CACHED_PROJECT_ROOT\neffective_root = project_root or Path.cwd()\n"
         "if _CACHED_PARSER is None or _CACHED_PROJECT_ROOT != effective_root:\n    _CACHED_PARSER = IgnoreDirectiveParser(effective_root)\n"
-        "    _CACHED_PROJECT_ROOT = effective_root\nreturn _CACHED_PARSER": 1})
+        "    _CACHED_PROJECT_ROOT = effective_root\nreturn _CACHED_PARSER": "true",
+        # shape of proposed_fixes/C09-rule-ignore-parser-root.diff: a call without a root re-uses the parser the orchestrator created
+        "global _CACHED_PARSER, _CACHED_PROJECT_ROOT\nif project_root is None and _CACHED_PARSER is not None:\n    return _CACHED_PARSER\n"
+        "effective_root = project_root or Path.cwd()\n"
+        "if _CACHED_PARSER is None or _CACHED_PROJECT_ROOT != effective_root:\n    _CACHED_PARSER = IgnoreDirectiveParser(effective_root)\n"
+        "    _CACHED_PROJECT_ROOT = effective_root\nreturn _CACHED_PARSER": "false"})
     _shape(PU, None, "matches_pattern", {
         "if pattern.endswith('/'):\n    return _matches_directory_pattern(path, pattern)\n"
         "return fnmatch.fnmatch(path, pattern) or fnmatch.fnmatch(str(Path(path)), pattern)": 1})
@@ -153,7 +158,7 @@ def repo_ignore_shape():
             + defn("repo_ignore_config_file", "string", coq_string(ast.literal_eval(mm.group(2))))
             + defn("repo_ignore_config_key", "string", coq_string(ast.literal_eval(m2.group(1))))
             + defn("repo_ignore_relative_to_root_with_fallback", "bool", "true")
-            + defn("ignore_parser_default_root_is_cwd", "bool", "true"))
+            + defn("ignore_parser_default_root_is_cwd", "bool", cwd_default))
 
 
 # ---------------------------------------------------------------- project root detection
